@@ -1,7 +1,7 @@
 /-
   PCV.Proofs.MLPCProps — lemmas behind the `mlpc_*` property theorems: the honest run from `setup`
-  to `check`, proof-element replacement, shapes, the verification relation, linearity of `commit`,
-  what the unchecked inputs of `commit` / `check` do.
+  to `check`, proof-element replacement, shapes and refusals, the verification relation, linearity
+  of `commit`.
 -/
 import PCV.Proofs.MLPCSetup
 
@@ -34,7 +34,9 @@ theorem honest_run [DecidableEq F] (nv s : Nat) (g h : F) (t evals z : List F)
     match t', hl with
     | [], hl => simp at hl; omega
     | a :: ts, hl =>
-      exact commit_wf g h a ts s evals (by rw [he]; simp only [List.length_cons] at hl; rw [hl])
+      simp only [List.length_cons] at hl
+      subst hl
+      exact commit_wf g h a ts evals he
   · have := open_wf g h (t.drop (nv - s)) evals z (by omega) (by rw [hl, he])
     rw [hl] at this
     exact this
@@ -55,7 +57,7 @@ theorem dot_set (l m : List F) (i : Nat) (x : F) (hl : i < l.length) (hm : i < m
         simp only [List.set_cons_succ, dot_cons, List.getElem_cons_succ]
         rw [ih bs i (by simpa using hl) (by simpa using hm)]; ring
 
-theorem pairingLefts_length (vk : VK F) (z : List F) (h1 : vk.nv ≤ z.length)
+theorem pairingLefts_length (vk : VK F) (z : List F) (h1 : z.length = vk.nv)
     (h2 : vk.nv ≤ vk.gMaskRandom.length) : (pairingLefts vk z).length = vk.nv := by
   unfold pairingLefts
   simp only [List.length_zipWith, List.length_take, batchMul_length]
@@ -109,75 +111,37 @@ theorem open_length (ck : CK F) (nv : Nat) (evals z ps : List F)
   · cases h
   · split at h
     · cases h
-    · exact openLoop_length _ _ _ _ _ h
+    · split at h
+      · cases h
+      · exact openLoop_length _ _ _ _ _ h
 
 theorem open_wrong_nv (ck : CK F) (nv : Nat) (evals z : List F) (h : nv ≠ ck.nv) :
     MLPC.open ck nv evals z = .error .abort := by
   unfold MLPC.open; rw [if_pos h]
 
-theorem open_short_point (ck : CK F) (nv : Nat) (evals z : List F) (h : z.length < nv) :
+/-- a point whose length differs from the number of variables is refused by `open` -/
+theorem open_wrong_point_len (ck : CK F) (nv : Nat) (evals z : List F) (h : z.length ≠ nv) :
     MLPC.open ck nv evals z = .error .abort := by
   unfold MLPC.open
   split
   · rfl
-  · split
-    · rfl
-    · exact openLoop_short _ _ _ _ h
+  · rename_i hnv
+    rw [if_pos (by rw [← Decidable.not_not.1 hnv]; exact h)]
 
 theorem check_proof_length [DecidableEq F] (vk : VK F) (c : Commitment F) (z : List F) (v : F)
     (πs : List F) (h : πs.length ≠ vk.nv) : check vk c z v πs = .error .abort := by
   unfold check
   split
   · rfl
-  · simp
+  · split
+    · rfl
+    · simp
 
-theorem check_short_point [DecidableEq F] (vk : VK F) (c : Commitment F) (z : List F) (v : F)
-    (πs : List F) (h : z.length < vk.nv) : check vk c z v πs = .error .abort := by
+/-- a point whose length differs from the key's number of variables is refused by `check` -/
+theorem check_wrong_point_len [DecidableEq F] (vk : VK F) (c : Commitment F) (z : List F) (v : F)
+    (πs : List F) (h : z.length ≠ vk.nv) : check vk c z v πs = .error .abort := by
   unfold check
-  rw [if_pos (Or.inl h)]
-
-/-! ### unchecked inputs -/
-
-theorem take_append_of_le (l m : List F) (n : Nat) (h : n ≤ l.length) :
-    (l ++ m).take n = l.take n := by
-  rw [List.take_append_of_le_length h]
-
-/-- surplus point coordinates are never read by `check` -/
-theorem check_surplus_point [DecidableEq F] (vk : VK F) (c : Commitment F) (z extra : List F)
-    (v : F) (πs : List F) (h : vk.nv ≤ z.length) :
-    check vk c (z ++ extra) v πs = check vk c z v πs := by
-  unfold check defect pairingLefts batchMul
-  have h1 : ¬ ((z ++ extra).length < vk.nv) := by simp; omega
-  have h2 : ¬ (z.length < vk.nv) := by omega
-  simp only [List.map_append]
-  rw [take_append_of_le _ _ _ (by simpa using h)]
-  by_cases hm : vk.gMaskRandom.length < vk.nv
-  · rw [if_pos (Or.inr hm), if_pos (Or.inr hm)]
-  · rw [if_neg (not_or.2 ⟨h1, hm⟩), if_neg (not_or.2 ⟨h2, hm⟩)]
-
-/-- surplus point coordinates are never read by `open` -/
-theorem openLoop_surplus (n : Nat) (hs : List (List F)) (r z extra : List F) (h : n ≤ z.length) :
-    openLoop n hs r (z ++ extra) = openLoop n hs r z := by
-  induction n generalizing hs r z with
-  | zero => simp [openLoop]
-  | succ n ih =>
-    match z, h with
-    | b :: zs, h =>
-      simp only [List.cons_append, openLoop]
-      cases hs with
-      | nil => rfl
-      | cons hi hs' =>
-        simp only
-        rw [ih hs' _ zs (by simpa using h)]
-
-/-- the MSM of `commit` sees only as many evaluations as the key table has entries -/
-theorem dot_take_right (l m : List F) : dot l (m.take l.length) = dot l m := by
-  induction l generalizing m with
-  | nil => simp
-  | cons a as ih =>
-    cases m with
-    | nil => simp
-    | cons b bs => simp [ih bs]
+  rw [if_pos h]
 
 /-! ### linearity of `commit` -/
 
